@@ -2,7 +2,7 @@
    An evaluate() iterator of a conjunctive query is a coroutine whose only shared state is the domain cache of its
    variables; it is written here in continuation-passing style as a tree [co] of domain pulls, so that it can be
    suspended at a yield and resumed after other iterators ran.  The machine is generic in the handle model
-   (current HashedIterable.__iter__ = [hstep]; repaired = [rstep]).  The harness runs it (vm_compute) next to the real
+   (current HashedIterable.__iter__ = [rstep]; the previous one = [hstep]).  The harness runs it (vm_compute) next to the real
    iterators on every enumerated schedule; scratch state on shared nodes (_is_false_, _eval_parent_) is not modelled. *)
 From Coq Require Import List ZArith Bool Arith.
 From Krrood Require Import Base.Sx Eql.DomainCacheSpec Eql.DomainCache Eql.ReevalSpec Eql.ReevalSpecSx.
@@ -131,36 +131,30 @@ Definition isys0 {H} (W : world) (A : attrs) (qs : list query) : isys H :=
   {| caches := map (fun w => {| cache := []; src := w |}) W; handles := [];
      its := map (compile A (S (S (S (2 * maxlen W))))) qs |}.
 
-(* prediction on the current code / on the repaired iterator *)
+(* prediction on the current code (iterator of commit 1997e3c) / on the previous iterator (regression only) *)
 Definition model_sched (W : world) (A : attrs) (qs : list query) (ops : list iop) : list ires :=
+  ilog rstate (RLive 0 []) rstep ops (isys0 W A qs).
+Definition old_sched (W : world) (A : attrs) (qs : list query) (ops : list iop) : list ires :=
   ilog hstate HNew hstep ops (isys0 W A qs).
-Definition repaired_sched (W : world) (A : attrs) (qs : list query) (ops : list iop) : list ires :=
-  ilog rstate (RLive 0) rstep ops (isys0 W A qs).
 
 (* ---- cases of the harness (encodings: Eql/ReevalSpecSx.v) ---- *)
 Definition to_sop (o : op) : sop := match o with Create => SCreate | Next h => SNext h | Abandon h => SAbandon h end.
 
 (* (a) one HashedIterable, schedule of handle operations: impl vs model vs spec *)
 Definition cache_case := (list Z * list op)%type.
-Definition cache_model (c : cache_case) : sx := sx_zs (run_log (snd c) (init (fst c))).
+Definition cache_model (c : cache_case) : sx := sx_zs (rrun_log (snd c) (rinit (fst c))).
+Definition cache_old (c : cache_case) : sx := sx_zs (run_log (snd c) (init (fst c))).
 Definition cache_spec (c : cache_case) : sx := scache_spec (fst c, map to_sop (snd c)).
-Definition cache_repaired (c : cache_case) : sx := sx_zs (rrun_log (snd c) (rinit (fst c))).
 Definition cache_code (c : cache_case) (impl : sx) : Z := classify impl (cache_model c) (cache_spec c).
-(* 0/1: does the repaired iterator meet the spec on this schedule (domains without duplicates) *)
-Definition cache_repaired_ok (c : cache_case) : Z := if sx_eqb (cache_repaired c) (cache_spec c) then 1 else 0.
 
 (* (c) several evaluate() iterators *)
 Definition sched_model (c : sched_case) : sx := let '(W, A, qs, ops) := c in sx_log (model_sched W A qs ops).
-Definition sched_repaired (c : sched_case) : sx := let '(W, A, qs, ops) := c in sx_log (repaired_sched W A qs ops).
+Definition sched_old (c : sched_case) : sx := let '(W, A, qs, ops) := c in sx_log (old_sched W A qs ops).
 Definition sched_code (c : sched_case) (impl : sx) : Z := classify impl (sched_model c) (sched_spec c).
-Definition sched_repaired_ok (c : sched_case) : Z := if sx_eqb (sched_repaired c) (sched_spec c) then 1 else 0.
 
-(* class of a cache case: 0 = inside F (sequential schedule, no duplicate element), +1 = two handles live at once,
-   +2 = duplicate element in the domain.  [cache_code] * 10 + class is what the harness reads. *)
-Fixpoint nodupb (l : list Z) : bool :=
-  match l with [] => true | x :: r => negb (mem x r) && nodupb r end.
-Definition cache_class (c : cache_case) : Z :=
-  (match seq_run (snd c) (init (fst c)) with Some _ => 0 | None => 1 end) + (if nodupb (fst c) then 0 else 2).
-Definition cache_code_class (c : cache_case) (impl : sx) : Z := cache_code c impl * 10 + cache_class c.
-(* sched cases: code * 10 + (1 if the repaired iterator meets the spec on this schedule) *)
-Definition sched_code_rep (c : sched_case) (impl : sx) : Z := sched_code c impl * 10 + sched_repaired_ok c.
+(* no tolerated class is left for the cache: every schedule over every domain is inside F.  The second digit records
+   whether the PREVIOUS iterator would have failed on the case (1) -- a measure of how much of the sweep exercises the repair *)
+Definition cache_code_class (c : cache_case) (impl : sx) : Z :=
+  cache_code c impl * 10 + (if sx_eqb (cache_old c) (cache_spec c) then 0 else 1).
+Definition sched_code_rep (c : sched_case) (impl : sx) : Z :=
+  sched_code c impl * 10 + (if sx_eqb (sched_old c) (sched_spec c) then 0 else 1).
